@@ -17,6 +17,7 @@ RULE = (
     'multitask Gaussian likelihood; (bound) whitened/unwhitened x q(u) kind in {random, tiny S, huge S, far mean, q=p, optimal}; (ngd) strategy x '
     'batch x start; distinct = cell without seed; non-trivial iff KL>1e-3 (definition) / q != q* (bound)'
     '; pass 5: coinciding sizes (M=N, M=B, M=batch, single points); registered added loss terms (combined and as fourth part)'
+    '; pass 6: minibatches with missing targets under both NaN policies; Cholesky parameter with arbitrary strict upper triangle'
 )
 REQUIRED = ["objective_matches_definition", "captured_terms_used", "elbo_below_evidence", "optimal_q_attains_titsias", "elbo_below_titsias", "ngd_one_step_reaches_optimum"]
 ASSUMPTIONS = ["Gaussian-likelihood bounds use the prior regularised by the strategy's jitter (jitter rule); the statement's NGD clause is restricted to NaturalVariationalDistribution"]
